@@ -160,16 +160,30 @@ def run_check(prop: str, run_rules, *, tier='quick', replay=None, thorough_extra
     scratch = bool(os.environ.get('MPSA_REPO'))
     evdir = Path(os.environ.get('MPSA_EVIDENCE_DIR') or (VERIF / 'evidence' if not scratch else '/tmp/mpsa-scratch-evidence'))
     evidence_path = evdir / f'{prop}.json'
+    ck = None
     try:
         repo = Repo()
         ck = Checker(prop, repo, tier)
-        run_rules(ck)
-        counts = ck.check_minimums()
         extra = {}
-        if tier == 'thorough':
-            extra = path_census(ck)
-            if thorough_extra is not None:
-                extra.update(thorough_extra(ck) or {})
+        counts = {}
+        try:
+            run_rules(ck)
+        except AnchorError as e:
+            # a construct a later rule needs has vanished.  If obligations decided before that point already failed,
+            # they are the news (a violated site often takes dependent anchors with it) and are reported as violations;
+            # the vanished anchor goes into the notes.  With nothing failed the run is analysis-broken.
+            if not any(not o.ok for o in ck.obs):
+                raise
+            ck.notes.append(f'analysis stopped early: {e}')
+            for o in ck.obs:
+                counts[o.rule] = counts.get(o.rule, 0) + 1
+            print(f'  note: analysis stopped early ({e}); reporting the {sum(1 for o in ck.obs if not o.ok)} obligation(s) that failed before that point')
+        else:
+            counts = ck.check_minimums()
+            if tier == 'thorough':
+                extra = path_census(ck)
+                if thorough_extra is not None:
+                    extra.update(thorough_extra(ck) or {})
     except (AnchorError, AnalysisError) as e:
         print(f'ANALYSIS-ERROR property={prop} {type(e).__name__}: {e}')
         return 2
